@@ -161,6 +161,8 @@ def main(argv=None):
   if agg['margins']:
     worst = sorted(agg['margins'].items(), key=lambda kv: -kv[1])[:6]
     print('  worst residual/tolerance:', ', '.join(f'{k}={v:.2e}' for k, v in worst))
+  slow = sorted(((r['wall'], r['index']) for r in results), reverse=True)[:4]
+  print('  slowest units:', ', '.join(f'#{i}={w:.0f}s' for w, i in slow))
   print(f'{pid}: {"OK" if exit_code == 0 else "FAILED"} (exit {exit_code})')
   return exit_code
 
